@@ -358,7 +358,7 @@ func runR56(c *Ctx) {
 
 func runR57(c *Ctx) {
 	p := c.P
-	fn := p.Func("internal/strings", "ToUpper")
+	fn := p.anchorUpper()
 	if fn == nil {
 		c.undecided("internal/strings.ToUpper", "-", "not found")
 		return
@@ -572,7 +572,7 @@ func runR58(c *Ctx) {
 
 func runR59(c *Ctx) {
 	p := c.P
-	nm := p.Func("internal/strings", "NewMatcher")
+	nm := p.anchorMatcherCtor()
 	if nm == nil {
 		c.undecided("internal/strings.NewMatcher", "-", "not found")
 		return
